@@ -139,7 +139,7 @@ prop(
 
 prop(
     "C25",
-    lean_modules=["BloomVerif.Lemmas.Content", "BloomVerif.Lemmas.ExprJson", "BloomVerif.Props.C25"],
+    lean_modules=["BloomVerif.Bridge.TreePre", "BloomVerif.Bridge.TreeBloom", "BloomVerif.Bridge.Guard", "BloomVerif.Lemmas.Content", "BloomVerif.Lemmas.ExprJson", "BloomVerif.Props.C25"],
     technique="Lean 4 proof (And/Or flattening, builder fold, JSON decode∘encode = id for all trees of the three kinds) + differential comparison of constructors, builder, json.Marshal and json.Unmarshal with the model",
     design_ref="DESIGN.md section 4 C25",
     text="Machine-checked for all trees including empty, nil-condition and unknown nodes: And/Or (with flattening) evaluate to the conjunction/disjunction of their arguments; every builder call sequence evaluates as the fold "
